@@ -228,7 +228,19 @@ func c16Shards(tier string) []engine.Shard {
 			}
 		}
 	}
+	// part C: Reset with caller slices of every capacity relation (the hash parsers load 8 bytes at a time
+	// and rely on a 7-byte margin behind the data that Reset, Write and Shrink must preserve)
+	shards = append(shards, parserShards("C16", c16ResetLayers(tier), OracleC16)...)
 	return shards
+}
+
+func c16ResetLayers(tier string) []Layer {
+	menu := Menu{Reset: true, Restart: true, WriteChunks: true}
+	geos := []lz.BufConfig{{BufferSize: 8, WindowSize: 8, BlockSize: 4}, {BufferSize: 16, WindowSize: 16, BlockSize: 16}, {BufferSize: 5, WindowSize: 3, BlockSize: 2, ShrinkSize: 1}}
+	if tier == "thorough" {
+		return []Layer{{Name: "reset-capacity", Kinds: Kinds, Geos: append(geos, lz.BufConfig{BufferSize: 1024, WindowSize: 64, BlockSize: 512}), Level: 0, Inputs: Union(BinaryRange(3, 7), FewLong(20)), Menu: menu, Bound: 3, NoTrack: true}}
+	}
+	return []Layer{{Name: "reset-capacity", Kinds: HashKinds, Geos: geos, Level: 2, Inputs: BinaryRange(4, 5), Menu: menu, Bound: 2, NoTrack: true}}
 }
 
 func init() {
@@ -257,6 +269,7 @@ func init() {
 					"memory_guard": "combinations whose tables would exceed ~64 MiB when accepted are skipped (the property is bounded by memory)"},
 				"part_B": map[string]any{"configs": "every distinct accepted configuration of part A (defaults-completed)", "small_tables": "deviation bound 1 over " + c16Inputs(tier, true, false).Name, "default_or_large_tables": "deviation bound 0 over " + c16Inputs(tier, false, false).Name,
 					"drivers": "parser-history driver (full menu) and WrappedParser over the scripted reader (C08 driver; only panics, spins and undocumented errors are judged here)"},
+				"part_C": layerBounds(c16ResetLayers(tier)),
 			}
 		},
 		Rule:        "part A: cases are configurations (field tuples), distinct by construction; part B: (accepted configuration, input, choice sequence); distinct_nontrivial counts distinct configurations enumerated plus configurations driven",
